@@ -120,6 +120,11 @@ class WindowedMeanSquaredError(
             ),
         )
 
+    def reset(self: TWindowedMeanSquaredError) -> TWindowedMeanSquaredError:
+        super().reset()
+        self.next_inserted = 0
+        return self
+
     @torch.inference_mode()
     # pyre-ignore[14]: inconsistent override on *_:Any, **__:Any
     def update(
